@@ -184,14 +184,20 @@
   (or (null? bags)
       (and (comparable-bags? bag1 (car bags))
            (= (bag-size bag1) (bag-size (car bags)))
-           (bag-every? (lambda (elt) (bag-contains? bag1 elt)) (car bags))
+           (bag-every? (lambda (elt)
+                         (= (bag-element-count bag1 elt)
+                            (bag-element-count (car bags) elt)))
+                       (car bags))
            (apply bag=? bags))))
 
 (define (bag<? bag1 . bags)
   (or (null? bags)
       (and (comparable-bags? bag1 (car bags))
            (< (bag-size bag1) (bag-size (car bags)))
-           (bag-every? (lambda (elt) (bag-contains? (car bags) elt)) bag1)
+           (bag-every? (lambda (elt)
+                         (<= (bag-element-count bag1 elt)
+                             (bag-element-count (car bags) elt)))
+                       bag1)
            (apply bag<? bags))))
 
 (define (bag>? . bags)
@@ -201,7 +207,10 @@
   (or (null? bags)
       (and (comparable-bags? bag1 (car bags))
            (<= (bag-size bag1) (bag-size (car bags)))
-           (bag-every? (lambda (elt) (bag-contains? (car bags) elt)) bag1)
+           (bag-every? (lambda (elt)
+                         (<= (bag-element-count bag1 elt)
+                             (bag-element-count (car bags) elt)))
+                       bag1)
            (apply bag<=? bags))))
 
 (define (bag>=? . bags)
